@@ -204,6 +204,7 @@ pub fn gen_tval(c: &mut Choices, key: &[u8], fam: FamId) -> TVal {
             let n = if c.chance(12) { *c.pick(&[65_534usize, 65_536, 70_000, 200_000]) } else { c.range(100, 260) };
             TVal::Bytes(vec![c.u8(); n])
         }
+        8 if c.chance(50) => TVal::Record { list: c.chance(60) },
         _ => TVal::Item(gen_item(c, 3)),
     }
 }
@@ -638,6 +639,7 @@ pub fn alphabet(fam: FamId) -> Vec<Op> {
         Op::InsertRaw { key: b"ed255196".to_vec(), raw: vec![0xc1, 0x05], k: 0 },
         Op::RemoveInsert { remove: vec![], insert: vec![(b"tcp66".to_vec(), vec![0, 0, 9]), (b"ip4".to_vec(), vec![1])], k: 0 },
         Op::Insert { key: vec![b'k'; 56], val: TVal::U8(1), k: 0 },
+        Op::Insert { key: b"parent".to_vec(), val: TVal::Record { list: false }, k: 0 },
     ];
     if fam.scheme() == Scheme::Secp {
         a.push(Op::Insert { key: b"ed25519".to_vec(), val: TVal::Bytes(vec![5; 32]), k: 0 });
